@@ -13,6 +13,7 @@
   Helper lemmas: Proofs/ExtraCluster.lean.
 -/
 import PgVerif.Proofs.ExtraCluster
+import PgVerif.Proofs.ClusterStr
 set_option linter.unusedSimpArgs false
 namespace PgVerif.Props.C12Extra
 open PgVerif PgVerif.Model PgVerif.Model.Extra PgVerif.Proofs.Extra PgVerif.Props.C10.Cluster
@@ -27,6 +28,18 @@ theorem C12_listDatabases (rr : RowReader) (fs : Bytes → Option Bytes) (data :
       l.Pairwise (fun a b => (xcIsTemplate a.name = true → xcIsTemplate b.name = true) ∧
                              (xcIsTemplate a.name = xcIsTemplate b.name → bytesLe a.name b.name = true)) :=
   listDatabases_spec rr fs data dbs hf hp
+
+/-- the hypotheses of `C12_listDatabases` are satisfiable with a non-trivial list: a row reader that finds two
+pg_database rows (oid 5 "z", oid 6 "a") -/
+example : ∃ (rr : RowReader) (fs : Bytes → Option Bytes) (data : Bytes) (dbs : List DatabaseInfo),
+    fs pathGlobal1262 = some data ∧ parsePGDatabase rr data = .ok dbs ∧ dbs = [⟨5, [122]⟩, ⟨6, [97]⟩] := by
+  refine ⟨fun _ _ _ => pure [[(strBytes "oid", .int 5), (strBytes "datname", .str [122])],
+                             [(strBytes "oid", .int 6), (strBytes "datname", .str [97])]], fun _ => some [], [], _, rfl, ?_, rfl⟩
+  have hne : (strBytes "datname" == strBytes "oid") = false := by
+    rw [beq_eq_false_iff_ne]
+    intro h
+    exact absurd (Proofs.Cluster.strBytes_inj _ _ h) (by decide)
+  simp [parsePGDatabase, getOID, getString, List.lookup, hne]
 
 /-- no global/1262: nil -/
 theorem C12_listDatabases_missing (rr : RowReader) (fs : Bytes → Option Bytes) (hf : fs pathGlobal1262 = none) :
